@@ -37,6 +37,7 @@ type shellModel struct {
 	complete                         map[int64]bool
 	// roles, resolved from the lookup in Scanner.Next (not from identifier names)
 	tableVar, classVar      string
+	classGlobal             *ssa.Global
 	stateT, classT, actionT *types.Named
 	stF                     *types.Var
 	actionOut               map[int64][]string // output symbols per action constant, derived from the interpreter arm
@@ -133,6 +134,7 @@ func shellRoles(c *Ctx, m *shellModel) bool {
 			return
 		}
 		m.tableVar, m.classVar, m.stF, m.stateT, m.classT, m.actionT = g.Name(), g2.Name(), sf, st, ct, at
+		m.classGlobal = g2
 		found = true
 	}
 	for _, h := range hosts {
@@ -259,6 +261,15 @@ func extractShellTables(c *Ctx) *shellModel {
 	cof, cpos := pkgVarInit(p, m.classVar)
 	ccl, ok := cof.(*ast.CompositeLit)
 	if !ok {
+		// a table filled at initialisation by constant stores (see builtTables): read off those constants
+		if m.classGlobal != nil && m.classGlobal.Pkg != nil {
+			if tab, ok := builtTables(m.classGlobal.Pkg)[m.classGlobal]; ok {
+				for b := 0; b < 256; b++ {
+					m.classOf[b] = tab[b]
+				}
+				return m
+			}
+		}
 		c.undecided("R-CLASSOF", "shell.classOf", cpos, "classOf is not a composite literal")
 		return nil
 	}
